@@ -1089,7 +1089,15 @@ def load_corpus(ctx):
 
 def run(ctx):
     ctx.coverage["rule"] = (
-        "a case is one scripted history ending in load_theory(name, limit), run in its own Python process and compared with a "
+        "DETERMINISTIC BATTERY (every run, every seed; synthetic chain ta<-tb<-tc<-td and diamond libraries whose axioms need "
+        "constants of direct AND indirect imports): edit of each file of the chain in turn then every theory reloaded; new content "
+        "with an OLDER mtime for the own file / a direct / an indirect import; diamond with edits, restore of the original file "
+        "with its original mtime; dangling import / cycle / both with 'failed load, unrelated theory, broken theory, load_metadata'; "
+        "dangling import and cycle introduced by edits; loads interrupted at items of an import / the theory / the root; duplicate "
+        "constant; limits (present, first, last, start, missing, foreign); os.utime forwards / backwards / unchanged; imports edited "
+        "with and without load_metadata. EVERY load of a synthetic scenario is compared with its own fresh process (files as they "
+        "are at that step), with the reference loader and with the Lean model (outcome, files parsed, theory items). "
+        "RANDOM REMAINDER: a case is one scripted history ending in load_theory(name, limit), run in its own Python process and compared with a "
         "fresh process doing only the final load and with the Lean model: real library (prior loads with limits, imports of "
         "modules that load theories as a side effect, a load interrupted by an injected exception, fresh loads of smt/verit), "
         "scratch copies of small real theories (os.utime forwards and backwards, load_metadata, faults) and random synthetic "
@@ -1117,7 +1125,10 @@ def run(ctx):
         "Lean theorems are about histories that keep file contents (touch, loads, faulted loads, imports, load_metadata); edits are "
         "covered by the subprocess oracles and the model correspondence only",
         "a change of a file's `imports` needs basic.load_metadata() before the next load (known finding, generated and keyed)",
-        "the Python package smt/ of the repository is shadowed by site-packages and is not imported in histories"]
+        "the Python package smt/ of the repository is shadowed by site-packages and is not imported in histories",
+        "a file replaced by DIFFERENT content with EXACTLY the mtime it was cached under is outside the property (a timestamp cache "
+        "cannot see it; 'a changed file is re-read' presupposes a changed timestamp) and is not generated; any other mtime, older or "
+        "newer, must cause a re-read and is generated"]
     corpus = load_corpus(ctx)
     if corpus:
         run_scenarios(ctx, corpus, src, "corpus")
@@ -1157,7 +1168,10 @@ MANIFEST = {
     "note": "Trusted: Lean kernel, propext/Classical.choice/Quot.sound, the harness (tracing wrappers, ast scan of module-level "
             "imports; function-level imports not followed), the reference loader. Item contents are opaque (parse result = function "
             "of item and visible items). Theorems cover content-preserving histories; edits of files that keep the imports "
-            "(including edits of imported files, fix C12-3) are covered by the subprocess oracles and the model correspondence only. "
+            "(including edits of indirectly imported files and new content with an older mtime, fix C12-3) are covered by the "
+            "deterministic battery (subprocess oracles, model correspondence), by changed_file_reread (dependency timestamps recorded "
+            "for all transitive imports; older timestamp = changed) and by one concrete Lean instance, not by a general theorem. "
+            "Same-mtime-different-content is out of scope. "
             "Known finding: edited `imports` are not re-read without load_metadata (stale_imports_counterexample). Model fuel: "
             "theorems hold for every fuel, with 'ran out of fuel' as an explicit outcome; sufficiency of fuel is not proved. "
             "Model = code with fixes C12-1..4; single user (master).",
